@@ -217,7 +217,14 @@ class CFG:
             self._connect(frontier, m)
             outs = [(m, None)]
             for case in st.cases:
-                outs += self._seq(case.body, [(m, None)])
+                c = self._new('case', case, st)          # binds the capture names of the pattern
+                self._edge(m, c)
+                front = [(c, None)]
+                if case.guard is not None:
+                    t, f = self._cond(case.guard, front, st)
+                    outs += f
+                    front = t
+                outs += self._seq(case.body, front)
             return outs
         # simple statements, defs, classes
         n = self._new('stmt', st, st)
@@ -304,6 +311,8 @@ def node_exprs(node):
         return [i.context_expr for i in a.items]
     if node.kind == 'handler':
         return [a.type] if a.type is not None else []
+    if node.kind == 'case':
+        return []
     if node.kind == 'stmt':
         if isinstance(a, (ast.FunctionDef, ast.AsyncFunctionDef)):
             return list(a.decorator_list) + list(a.args.defaults) + [d for d in a.args.kw_defaults if d is not None]
